@@ -30,7 +30,8 @@ from .fhdl2smt import Design, Unroller, RefSim
 class Bench:
     def __init__(self, name, top, inputs, consts=None, free_init=None, init_assume=(),
                  assumes=None, bads=None, covers=None, schedule=None, clock_domains=("sys",),
-                 info=None, fairness=None, tick_inputs=None, always_tick=(), abstract_memories=None, concrete_factory=None):
+                 info=None, fairness=None, tick_inputs=None, always_tick=(), abstract_memories=None, concrete_factory=None,
+                 free_all_except=None):
         self.name = name
         self.top = top
         self.inputs = collections.OrderedDict(inputs)
@@ -65,6 +66,12 @@ class Bench:
         self.design = Design(top, inputs=list(self.inputs.values()), consts=list(self.consts.values()),
                              extra_clock_domains=clock_domains, name=name, stable_names=stable)
         self.elab_s = time.time() - t0
+        if free_all_except is not None:
+            # every register of the design starts from an arbitrary value, except the listed ones (which keep their reset value)
+            keep = set(free_all_except)
+            for sgn in sorted(self.design.regs, key=lambda x: x.duid):
+                if sgn not in keep and sgn not in self.free_init.values():
+                    self.free_init["reg_%s" % self.design.sig_name(sgn)] = sgn
         for n, s in self.free_init.items():
             if not self.design.is_state(s):
                 raise fhdl2smt.EncodeError("free_init %s is not a register" % n)
